@@ -91,7 +91,49 @@ def run_main(sb_dir, case, variant, out_mode='abs'):
         stray = os.path.join(start_cwd, 'rel'); shutil.rmtree(stray, ignore_errors=True)
     files = T.read_tree(out_abs) if out_abs else {}
     damaged = sorted(q for q in pre if files.get(q) != pre[q])
-    return dict(status=status, stdout=stdout.getvalue(), files={q: t for q, t in files.items() if q not in pre}, changed_outside=changed, stray=stray, damaged=damaged, abs_input=p)
+    return dict(status=status, stdout=stdout.getvalue(), files={q: t for q, t in files.items() if q not in pre}, changed_outside=changed, stray=stray, damaged=damaged, abs_input=p,
+                model=dict(argv=args, sfile=sfile, sfile_content=cfgd, user_content=({'input': {'exclude_filters': u_p}} if u_p else None),
+                           world=[(p, inp)] + more, pre=bool(pre), out_mode=out_mode))
+
+
+def has_links(children):
+    return any(c.get('symlink') or c.get('dirlink') or c.get('alias') or ('children' in c and has_links(c['children'])) for c in children)
+
+
+def whole_program(cli, case, out, drv, key):
+    """the very command line of this run, the content of the -s file and of the user file, the packaged defaults and what the input paths
+    denote, handed to `Main.cminxMain` — parser, layering, settings, exclusion by pattern, walk, pages in ONE model function, none of it
+    translated by the harness — and its outcome compared with what the real main() did"""
+    import s_config
+    m = cli['model']
+    if m['pre'] or m['out_mode'] in ('equal', 'above') or any(i['kind'] == 'dir' and has_links(i['children']) for _, i in m['world']):
+        out.dist['whole-program:skipped (links / output over existing files)'] += 1; return
+    world = {}
+    for path, inp in m['world']:
+        j = dict(kind=inp['kind'], name=inp['name'], abs=[c for c in path.split('/') if c])
+        if inp['kind'] == 'dir': j['children'] = inp['children']
+        elif inp['kind'] == 'file': j['content'] = inp['content']
+        world[path] = j
+    req = dict(op='cminx', argv=m['argv'], sfiles={m['sfile']: s_config.flat(m['sfile_content'])},
+               user=s_config.flat(m['user_content']) if m['user_content'] else {}, defaults=s_config.load_defaults(), world=world)
+    mo = drv.run([req])[0]
+    out.traces_validated += 1; out.dist['whole-program:' + mo.get('outcome', 'fail')] += 1
+    rec = dict(suite='whole-program', key=key, case=case, argv=m['argv'])
+    if mo.get('outcome') == 'unsupported': return
+    if mo.get('outcome') != 'ran':
+        if cli['status'] == 'ok': out.disagreements.append(dict(rec, detail=dict(kind='model: the run does not get as far as documenting', model=mo, real=cli['status'])))
+        return
+    mstatus = mo['status'] if isinstance(mo['status'], str) else 'raised'
+    rstatus = 'ok' if cli['status'] == 'ok' else ('exit-1' if cli['status'] == 'exit:-1' else 'raised')
+    mfiles = T.model_files(mo)
+    # with an output directory main()'s own log records (INFO, to stdout by the default logging configuration) are all that is printed:
+    # "nothing else as long as the input triggers no diagnostics" is about the stdout mode
+    same_out = mo['stdout'] == cli['stdout'] if case.get('output') is None else mo['stdout'] == ''
+    if mstatus != rstatus or not same_out or mfiles != cli['files']:
+        diff = sorted(q for q in set(mfiles) | set(cli['files']) if mfiles.get(q) != cli['files'].get(q))[:6]
+        out.disagreements.append(dict(rec, detail=dict(kind='whole program: model and real main() differ', status=dict(model=mo['status'], real=cli['status']),
+                                                       files_differing=diff, stdout_equal=same_out,
+                                                       sample=dict(model=mfiles.get(diff[0], '')[:300], real=cli['files'].get(diff[0], '')[:300]) if diff else None)))
 
 
 def tree_dirs(children, rel=()):
@@ -188,6 +230,7 @@ def cli_suite(prop, seed, count, out, drv):
         with impl.Sandbox() as sb:
             api = T.run_real(sb.dir, case, variant='api')
             cli = run_main(sb.dir, case, 'cli', out_mode=case['cli_out'])
+            whole_program(cli, case, out, drv, (prop, 'cli', seed, n))
             if prop == 'C18' and case['output'] is None: with_o = run_main(sb.dir, dict(case, output='abs'), 'cli_o', out_mode='abs'); out.traces_validated += 1
         out.traces_validated += 2; out.note_case(key, True); out.dist['cli:' + cli['status']] += 1
         rec = dict(suite='cli', key=key, case=case)
